@@ -174,6 +174,21 @@ func matcherParts(r *core.Run, rulePart, ruleThresh string) {
 				}
 				ok1, n1, path := core.MustPass(fn, ap.Block(), atom)
 				r.Check(ok1 && n1 > 0, ruleThresh, fnm+"#candidate/sim>=threshold", ap.Pos(), "a rename candidate exists only under similarity >= threshold", "a rename candidate is created without similarity >= threshold ("+core.FmtPath(path)+"): functions below the threshold can be paired")
+				// the candidate search is exhaustive: neither loop around the append is left early
+				for h := core.LoopHeaderOf(ap.Block()); h != nil && strings.HasPrefix(ruleThresh, "C19"); h = outerLoopHeader(h) {
+					body := loopBody(h)
+					for b := range body {
+						if b == h {
+							continue
+						}
+						for _, sc := range b.Succs {
+							if !body[sc] {
+								r.Fail("C19.CAND", fnm+"#candidate/search-exhaustive", ap.Pos(), "the candidate loop is left early from block "+b.String()+" (break/return inside the search): some old/new pairs are never scored, so a renamed function can be reported as removed+added")
+							}
+						}
+					}
+					r.OK("C19.CAND", fnm+"#candidate/search-exhaustive@"+h.String(), ap.Pos(), "loop around the candidate append is left only through its own iteration test")
+				}
 				if okS {
 					_, isSim := callTo(sim, p.ModPath+"/pkg/analysis/topology.TopologySimilarity")
 					r.Check(isSim, ruleThresh, fnm+"#candidate/sim-source", ap.Pos(), "candidate similarity is the structural similarity of the two topologies", "candidate similarity is "+core.Canon(sim))
@@ -475,4 +490,40 @@ func c09Diverge(r *core.Run) {
 		})
 	}
 	r.Floor("C09.DIVERGE", "appends to the Added/Removed operation lists", n, 2)
+}
+
+
+// loopBody: the natural loop of header h (blocks dominated by h that reach h without leaving its dominance region).
+func loopBody(h *ssa.BasicBlock) map[*ssa.BasicBlock]bool {
+	body := map[*ssa.BasicBlock]bool{h: true}
+	var work []*ssa.BasicBlock
+	for _, pr := range h.Preds {
+		if h.Dominates(pr) {
+			work = append(work, pr)
+		}
+	}
+	for len(work) > 0 {
+		b := work[len(work)-1]
+		work = work[:len(work)-1]
+		if body[b] {
+			continue
+		}
+		body[b] = true
+		for _, pr := range b.Preds {
+			if h.Dominates(pr) {
+				work = append(work, pr)
+			}
+		}
+	}
+	return body
+}
+
+// outerLoopHeader: header of the innermost loop strictly containing the loop of h (nil if none).
+func outerLoopHeader(h *ssa.BasicBlock) *ssa.BasicBlock {
+	for d := h.Idom(); d != nil; d = d.Idom() {
+		if lb := loopBody(d); len(lb) > 1 && lb[h] {
+			return d
+		}
+	}
+	return nil
 }
